@@ -1239,7 +1239,11 @@ class C17(ModelCheck):
         case = json.loads(json.dumps(case))
         try:
             if case["kind"] == "trigexpr":
-                # the whole integration on its own (virtual-clock) loop; the bare-interpreter environment is not involved
+                # the whole integration on its own (virtual-clock) loop.  The bare-interpreter environment must not be open
+                # meanwhile: the integration harness resets pyscript's class-level tables and would orphan that
+                # environment's reaper task (a pending task_reaper on a closed loop spins for ever when it is collected)
+                if ENV.key is not None:
+                    ENV.close(final=False)
                 return run_trigexpr_case(case)
             ENV.ensure(*env_key(case))
             return ENV.run(RUNNERS[case["kind"]](case))
